@@ -17,6 +17,18 @@ import (
 
 	rc "connectrpc.com/conformance/internal/app/referenceclient"
 	"connectrpc.com/conformance/internal/verifharness/gen"
+	"github.com/google/go-cmp/cmp"
+	"google.golang.org/protobuf/encoding/protojson"
+	"google.golang.org/protobuf/proto"
+	"google.golang.org/protobuf/reflect/protoreflect"
+	"google.golang.org/protobuf/reflect/protoregistry"
+	"google.golang.org/protobuf/testing/protocmp"
+	"google.golang.org/protobuf/types/known/anypb"
+	"google.golang.org/protobuf/types/known/emptypb"
+	"google.golang.org/protobuf/types/known/wrapperspb"
+
+	conformancev1 "connectrpc.com/conformance/internal/gen/proto/go/connectrpc/conformance/v1"
+	"sort"
 )
 
 type c13JSONOut struct {
@@ -34,6 +46,52 @@ type c13DebugOracle struct {
 	Type string   `json:"type"` // hex
 	Data string   `json:"data"` // hex
 	Fb   []string `json:"fb"`
+	// Steps: what the protobuf libraries say about (Type, Data, debug) - the atoms from which the
+	// Lean model (Model/ConnectJson.lean: debugDataFb) derives the message; Fb must be that message
+	Steps c13DebugSteps `json:"steps"`
+}
+
+// c13DebugSteps: the outcome of every library call examineConnectErrorDetailDebugData can make,
+// each computed here on its own (the examiner's decisions - which call follows which, which type
+// name a type URL stands for - are the model's).
+type c13DebugSteps struct {
+	Resolved bool   `json:"resolved"` // protoregistry.GlobalTypes.FindMessageByName(type)
+	ValueOK  bool   `json:"valueOk"`  // proto.Unmarshal(data) into that type
+	DirectOK bool   `json:"directOk"` // protojson.Unmarshal(debug) into that type
+	EqDirect bool   `json:"eqDirect"` // ... and it equals the message of the value (cmp.Diff, protocmp.Transform)
+	AnyOK    bool   `json:"anyOk"`    // protojson.Unmarshal(debug) into a google.protobuf.Any
+	AnyURL   string `json:"anyUrl"`   // hex: its type URL
+	NewOK    bool   `json:"newOk"`    // anyMsg.UnmarshalNew()
+	EqAny    bool   `json:"eqAny"`    // ... and it equals the message of the value
+}
+
+func c13Steps(msgName string, data, debugJSON []byte) (s c13DebugSteps) {
+	mt, err := protoregistry.GlobalTypes.FindMessageByName(protoreflect.FullName(msgName))
+	if err != nil {
+		return s
+	}
+	s.Resolved = true
+	fromValue := mt.New().Interface()
+	if proto.Unmarshal(data, fromValue) != nil {
+		return s
+	}
+	s.ValueOK = true
+	direct := mt.New().Interface()
+	if protojson.Unmarshal(debugJSON, direct) == nil {
+		s.DirectOK = true
+		s.EqDirect = cmp.Diff(fromValue, direct, protocmp.Transform()) == ""
+	}
+	var anyMsg anypb.Any
+	if protojson.Unmarshal(debugJSON, &anyMsg) == nil {
+		s.AnyOK = true
+		s.AnyURL = c13Hx(anyMsg.GetTypeUrl())
+		if m, err := anyMsg.UnmarshalNew(); err == nil {
+			s.NewOK = true
+			s.EqAny = m.ProtoReflect().Descriptor().FullName() == fromValue.ProtoReflect().Descriptor().FullName() &&
+				cmp.Diff(fromValue, m, protocmp.Transform()) == ""
+		}
+	}
+	return s
 }
 
 // c13ParseValue reads one JSON value from the token stream.
@@ -152,7 +210,7 @@ func c13DebugOracles(raw []byte, endStream bool) []c13DebugOracle {
 			for _, m := range rc.VerifC13DebugData(i, *det.Type, data, det.Debug) {
 				fb = append(fb, c13Class(m))
 			}
-			out = append(out, c13DebugOracle{I: i, Type: c13Hx(*det.Type), Data: gen.Hex(data), Fb: fb})
+			out = append(out, c13DebugOracle{I: i, Type: c13Hx(*det.Type), Data: gen.Hex(data), Fb: fb, Steps: c13Steps(*det.Type, data, det.Debug)})
 		}
 	}
 	return out
@@ -319,7 +377,8 @@ func c13RandDetailDoc(r *gen.Rand) string {
 		case k == "value" || k == "VALUE":
 			v = c13Quote(gen.Pick(r, []string{"", "CgFh", "CgFi", "QQ", "Q", "QQ==", "Q\nQ", "/w", "!!", "CgFh="}))
 		default:
-			v = gen.Pick(r, []string{`"a"`, `"b"`, `{}`, `{"value":"a"}`, `null`, `{"@type":"type.googleapis.com/google.protobuf.StringValue","value":"a"}`, `{"name":"n","name":"m"}`})
+			v = gen.Pick(r, []string{`"a"`, `"b"`, `{}`, `{"value":"a"}`, `null`, `{"@type":"type.googleapis.com/google.protobuf.StringValue","value":"a"}`, `{"name":"n","name":"m"}`,
+				`{"@type":` + c13Quote(c13RandURLPrefix(r)+gen.Pick(r, []string{"google.protobuf.StringValue", "google.protobuf.StringValue", "google.protobuf.Empty", "a.B", ""})) + `,"value":"a"}`})
 		}
 		return c13Quote(k) + ":" + v
 	})
@@ -408,5 +467,127 @@ func c13JSONRandom(c *gen.Ctx, n int) {
 		c.Do("cerr", c13JSONIn{JSON: c13Hx(c13RandErrorDoc(c.R)), Kind: "structured"})
 		c.Do("cend", c13JSONIn{JSON: c13Hx(c13RandEndStreamDoc(c.R)), Kind: "structured"})
 		c.E.Count("kind:json-structured-random")
+	}
+}
+
+// ---------------------------------------------------------------- generator: "debug" in google.protobuf.Any form
+
+// c13AnyParts: for a message, its full name, its serialized bytes and the members its
+// google.protobuf.Any rendering has besides "@type" (as protojson writes them, compacted).
+type c13AnyParts struct {
+	name    string
+	value   []byte
+	members string // `,"k":v,...` in key order, or ""
+}
+
+func c13AnyPartsOf(m proto.Message) c13AnyParts {
+	name := string(m.ProtoReflect().Descriptor().FullName())
+	value, err := proto.MarshalOptions{Deterministic: true}.Marshal(m)
+	if err != nil {
+		panic(err)
+	}
+	js, err := protojson.Marshal(&anypb.Any{TypeUrl: "type.googleapis.com/" + name, Value: value})
+	if err != nil {
+		panic(err)
+	}
+	var ms map[string]json.RawMessage
+	if err := json.Unmarshal(js, &ms); err != nil {
+		panic(err)
+	}
+	delete(ms, "@type")
+	keys := make([]string, 0, len(ms))
+	for k := range ms {
+		keys = append(keys, k)
+	}
+	sort.Strings(keys)
+	out := c13AnyParts{name: name, value: value}
+	for _, k := range keys {
+		var buf bytes.Buffer
+		if err := json.Compact(&buf, ms[k]); err != nil {
+			panic(err)
+		}
+		out.members += "," + c13Quote(k) + ":" + buf.String()
+	}
+	return out
+}
+
+// c13AnyDetail: an error detail of type `typ` with value `value` whose "debug" member is the
+// Any rendering `{"@type": url, members...}`.
+func c13AnyDetail(typ string, value []byte, url, members string) string {
+	return `{"type":` + c13Quote(typ) + `,"value":"` + base64.RawStdEncoding.EncodeToString(value) + `","debug":{"@type":` + c13Quote(url) + members + `}}`
+}
+
+// c13URLPrefixes: what may stand in front of the message name in a type URL - nothing but the
+// slash, the default host, other hosts, hosts with a path, several slashes, a scheme, a prefix that
+// repeats the default one or looks like a message name.
+var c13URLPrefixes = []string{"type.googleapis.com/", "/", "types.example.com/", "example.com/schemas/v1/", "//", "https://example.com/a/b/",
+	"type.googleapis.com/type.googleapis.com/", "type.googleapis.com//", "a.B/", "google.protobuf.Int32Value/", "TYPE.GOOGLEAPIS.COM/", "x/"}
+
+func c13RandURLPrefix(r *gen.Rand) string {
+	if r.Intn(4) == 0 {
+		return gen.Pick(r, c13URLPrefixes)
+	}
+	var sb bytes.Buffer
+	for k := r.Intn(14); k > 0; k-- {
+		sb.WriteByte(gen.Pick(r, []byte("abzAZ09.-_:/~/")))
+	}
+	return sb.String() + "/"
+}
+
+// c13JSONAnyForm: Connect errors whose details carry the "debug" member in google.protobuf.Any
+// form (as older connect-go and other encoders write it) with every kind of type URL prefix:
+// well-formed ones (the URL names the detail's type, the message is the value's: no feedback may
+// come), and per well-formed one the malformations of that form (the URL names another type; the
+// message differs; no name after the last slash).
+func c13JSONAnyForm(c *gen.Ctx, nRand int) {
+	r := c.R
+	msgs := []proto.Message{
+		wrapperspb.String("a"),
+		&emptypb.Empty{},
+		&conformancev1.Header{Name: "x-k", Value: []string{"v1", "v/2"}},
+		&conformancev1.Error{Code: conformancev1.Code_CODE_ABORTED, Message: proto.String("m/n")},
+		wrapperspb.Int32(7),
+	}
+	var parts []c13AnyParts
+	for _, m := range msgs {
+		parts = append(parts, c13AnyPartsOf(m))
+	}
+	other := c13AnyPartsOf(wrapperspb.String("b"))
+	goodDetail := `{"type":"google.protobuf.Empty","value":""}`
+	do := func(kind, detail string, second bool) {
+		ds := detail
+		if second {
+			ds = goodDetail + "," + detail
+		}
+		errDoc := `{"code":"internal","message":"m","details":[` + ds + `]}`
+		c.Do("cerr", c13JSONIn{JSON: c13Hx(errDoc), Kind: kind})
+		c.Do("cend", c13JSONIn{JSON: c13Hx(`{"error":` + errDoc + `,"metadata":{"x-a":["1"]}}`), Kind: kind})
+		c.E.Count("kind:json-anyform-" + kind)
+	}
+	one := func(p c13AnyParts, prefix string, second bool) {
+		do("anyform", c13AnyDetail(p.name, p.value, prefix+p.name, p.members), second)
+		// the URL names another (resolvable) type, rendered as that type
+		q := parts[(len(p.name)+len(prefix))%len(parts)]
+		if q.name == p.name {
+			q = other
+		}
+		do("mut:cd:debug-type", c13AnyDetail(p.name, p.value, prefix+q.name, q.members), second)
+		// nothing after the last slash / the name followed by a slash
+		do("random", c13AnyDetail(p.name, p.value, prefix, p.members), second)
+		do("random", c13AnyDetail(p.name, p.value, prefix+p.name+"/", p.members), second)
+	}
+	for _, p := range parts {
+		for _, prefix := range c13URLPrefixes {
+			one(p, prefix, len(prefix)%2 == 0)
+		}
+		// no slash at all: the URL is the name
+		do("anyform", c13AnyDetail(p.name, p.value, p.name, p.members), false)
+	}
+	// the message differs from the value, whatever the prefix
+	for _, prefix := range c13URLPrefixes {
+		do("mut:cd:debug-mismatch", c13AnyDetail(other.name, parts[0].value, prefix+other.name, other.members), false)
+	}
+	for i := 0; i < nRand; i++ {
+		one(gen.Pick(r, parts), c13RandURLPrefix(r), r.Bool())
 	}
 }
